@@ -123,6 +123,63 @@ func checkNoDuplicateKeys(eventJSON []byte) error {
 	return err
 }
 
+// checkContentKeys returns an error if the content of an event whose type the
+// authorisation rules look into has a key, at any depth, that differs from one of the keys
+// decoded for that type only in letter case. encoding/json would read it as that key:
+// {"membership": "join", "member\u017fhip": "ban"} is a ban to this library and a join to
+// everyone else, and the "u\u017fers" of a power levels event are merged into its "users".
+func checkContentKeys(eventJSON []byte) error {
+	event := gjson.ParseBytes(eventJSON)
+	fields, ok := contentFieldNames[event.Get("type").String()]
+	if !ok {
+		return nil
+	}
+	return checkObjectKeys(event.Get("content"), fields)
+}
+
+func checkObjectKeys(value gjson.Result, fields []string) error {
+	var err error
+	isObject := value.IsObject()
+	value.ForEach(func(key, child gjson.Result) bool {
+		if isObject {
+			for _, field := range fields {
+				if key.String() != field && strings.EqualFold(key.String(), field) {
+					err = fmt.Errorf("gomatrixserverlib: key %q in event content is ambiguous with %q", key.String(), field)
+					return false
+				}
+			}
+			switch key.String() {
+			case "users", "events", "notifications", "signatures":
+				// These are keyed by user IDs, event types and server names.
+				return true
+			}
+		}
+		if child.IsObject() || child.IsArray() {
+			err = checkObjectKeys(child, fields)
+		}
+		return err == nil
+	})
+	return err
+}
+
+// contentFieldNames are the content keys, of any depth, that are decoded for the event
+// types that the authorisation rules and the signature checks look into.
+var contentFieldNames = map[string][]string{
+	spec.MRoomCreate: {
+		"additional_creators", "creator", "event_id", "m.federate", "predecessor", "room_id", "room_version", "type",
+	},
+	spec.MRoomMember: {
+		"avatar_url", "display_name", "displayname", "is_direct", "join_authorised_via_users_server", "membership",
+		"mxid", "mxid_mapping", "reason", "signatures", "signed", "third_party_invite", "token", "user_id", "user_room_key",
+	},
+	spec.MRoomPowerLevels: {
+		"ban", "events", "events_default", "invite", "kick", "notifications", "redact", "state_default", "users", "users_default",
+	},
+	spec.MRoomJoinRules:        {"allow", "join_rule", "room_id", "type"},
+	spec.MRoomThirdPartyInvite: {"display_name", "key_validity_url", "public_key", "public_keys"},
+	spec.MRoomRedaction:        {"reason", "redacts"},
+}
+
 // eventFieldNames are the top-level keys that the event structs and the redaction
 // algorithms decode.
 var eventFieldNames = []string{
